@@ -172,7 +172,11 @@ func c18Exec(ctx *core.Ctx, c c18Case) {
 		for _, rc := range curRcpts {
 			if strings.Contains(rc, "-fail") {
 				code := c18FailCode(rc)
-				st.SetStatus(rc, &smtp.SMTPError{Code: code, EnhancedCode: smtp.EnhancedCode{code / 100, 2, 2}, Message: "v#st " + rc})
+				msg := "v#st " + rc
+				if code == 450 || code == 554 {
+					msg += "\nsecond line of the status of " + rc // a multi-line per-recipient reply
+				}
+				st.SetStatus(rc, &smtp.SMTPError{Code: code, EnhancedCode: smtp.EnhancedCode{code / 100, 2, 2}, Message: msg})
 			} else {
 				st.SetStatus(rc, nil)
 			}
@@ -433,7 +437,11 @@ func c18FakeLMTP(f *wire.Fake) {
 				for _, rc := range accepted {
 					if strings.Contains(rc, "-fail") {
 						code := c18FailCode(rc)
-						f.Write(fmt.Sprintf("%d %d.2.2 <%s> v#st %s\r\n", code, code/100, rc, rc))
+						if code == 450 || code == 554 {
+							f.Write(fmt.Sprintf("%d-%d.2.2 <%s> v#st %s\r\n%d %d.2.2 second line of the status of %s\r\n", code, code/100, rc, rc, code, code/100, rc))
+						} else {
+							f.Write(fmt.Sprintf("%d %d.2.2 <%s> v#st %s\r\n", code, code/100, rc, rc))
+						}
 					} else {
 						f.Write("250 2.0.0 <" + rc + "> ok\r\n")
 					}
